@@ -114,7 +114,7 @@ func genHistory(t *rapid.T, cfg genCfg) ([]opSpec, map[string]bool) {
 	}
 	limit := int(seg) * cfg.maxBytes
 	for i := 0; i < nops && g.bytes < limit; i++ {
-		kind := rapid.SampledFrom([]string{"save", "save", "save", "save", "save", "save", "commit", "commit", "vote", "snap", "snap", "insnap", "sync", "reopen", "empty", "snapthenstate"}).Draw(t, "op")
+		kind := rapid.SampledFrom([]string{"save", "save", "save", "save", "save", "save", "commit", "commit", "vote", "snap", "snap", "insnap", "sync", "reopen", "empty", "snapthenstate", "cutthenmarker"}).Draw(t, "op")
 		if g.term == 0 || i == bigAt {
 			kind = "save"
 		}
@@ -207,6 +207,46 @@ func genHistory(t *rapid.T, cfg genCfg) ([]opSpec, map[string]bool) {
 				g.labels["save_sized_to_end_near_segment_boundary"] = true
 			}
 			ops = append(ops, o)
+		case "cutthenmarker":
+			// a Save that rolls the segment, then Saves that carry entries only, then a snapshot marker
+			// (it lands in the new segment) and a reopen at it: what the new segment's header carries
+			// (crc, metadata, hard state) is all a reader that starts there knows
+			if g.term == 0 {
+				continue
+			}
+			o := opSpec{K: "save"}
+			o.Ents = append(o.Ents, drawEntry(t, g, g.last+1, g.term, false))
+			g.last++
+			g.termOf[g.last] = g.term
+			if g.commit < g.last {
+				g.commit += uint64(rapid.IntRange(1, int(g.last-g.commit)).Draw(t, "adv"))
+			}
+			o.St = g.stateIfChanged()
+			f := -rapid.IntRange(8, 64).Draw(t, "overshoot")
+			o.Fill = &f
+			ops = append(ops, o)
+			g.bytes += estSize(&o)
+			for k := rapid.IntRange(1, 2).Draw(t, "plain"); k > 0; k-- {
+				p := opSpec{K: "save"}
+				p.Ents = append(p.Ents, drawEntry(t, g, g.last+1, g.term, false))
+				g.last++
+				g.termOf[g.last] = g.term
+				ops = append(ops, p)
+				g.bytes += estSize(&p)
+			}
+			lastSnap := g.snaps[len(g.snaps)-1].Idx
+			if g.commit > lastSnap && g.commit >= g.first {
+				lo := lastSnap + 1
+				if lo < g.first {
+					lo = g.first
+				}
+				idx := lo + uint64(rapid.IntRange(0, int(g.commit-lo)).Draw(t, "snapAt"))
+				sn := opSpec{K: "snap", Idx: idx, Term: g.termOf[idx]}
+				ops = append(ops, sn, opSpec{K: "reopen", Idx: idx, Term: g.termOf[idx]})
+				g.snaps = append(g.snaps, sn)
+				g.labels["local_snapshot"] = true
+				g.labels["cut_then_entries_then_marker_then_reopen"] = true
+			}
 		case "snapthenstate":
 			// a local snapshot marker (usually behind the last entry) followed at once by a Save that
 			// carries only a hard state: if the tail has outgrown the segment, that Save rolls it, and
